@@ -306,6 +306,15 @@ func c06Cfgs() []*bsCfg {
 			Ops: []bsOp{S(1, 1), S(2, 1), S(1, 3), D(1)}},
 		{Name: "loader-big", MaxSize: 2, ChanSize: 2, BufSize: 2, Loading: true, LoadCost: 3, NClients: 2, OpsPer: 2, Depth: 9, Probe: true,
 			Ops: []bsOp{S(1, 1), S(2, 1), L(3), L(1)}},
+		// the loader leaves Cost 0, so the cost function rates the value: loaded values (>= 1000) cost MaxSize+1
+		{Name: "loader-costfn", MaxSize: 2, ChanSize: 2, BufSize: 2, Loading: true, LoadCost: 0, NClients: 2, OpsPer: 2, Depth: 9, Probe: true,
+			CostFn: func(v int) int64 {
+				if v >= 1000 {
+					return 3
+				}
+				return 1
+			},
+			Ops: []bsOp{S(1, 0), S(2, 1), L(3), L(1)}},
 		{Name: "loader-ttl", MaxSize: 2, ChanSize: 2, BufSize: 2, Loading: true, LoadCost: 1, LoadTTL: sec, NClients: 2, OpsPer: 2, Depth: 9, Ticks: 1, TickNs: 1100 * 1e6, Advs: []int64{1100 * 1e6}, MaxAdv: 1, Probe: true,
 			Ops: []bsOp{S(1, 1), L(1), L(2), D(1)}},
 	}
